@@ -4,3 +4,4 @@ import XV.Model.Utf8
 import XV.Props.C05
 import XV.Props.C11
 import XV.Props.C07
+import XV.Props.C06
